@@ -1040,6 +1040,29 @@ static void modeTable(int argc, char** argv, Rng& rng)
         for (const char* sep : seps)
           for (int al = 0; al < 2; ++al) writeRead(u, sep, al != 0);
       }
+  // (a') read of line-structured texts (header / row-name shapes, degenerate later lines) x header x rowNames
+  {
+    long k = 0;
+    for (char sepc : {',', '\t'})
+      for (const auto& text : dictTableTexts(sepc))
+      {
+        if (dim < 6 && (k++ % 4) != 0) continue; // a quarter of them in the quick tier
+        if (g_sinceReset >= 200) reset("table-read");
+        std::string sep(1, sepc);
+        bool header = rng.coin();
+        int rn = static_cast<int>(rng.below(4)) - 1;
+        bpp::DataTable t(0);
+        std::unique_ptr<bpp::DataTable> back;
+        Res r = call([&]() {
+          std::istringstream is(text);
+          back = bpp::DataTable::read(is, sep, header, rn);
+        });
+        if (back) t = *back;
+        emit(ev("TabRead", r).kv("text", asc(text)).kv("sep", asc(sep)).kv("header", header).kv("rn", rn).kv("s", tableProj(t)));
+        tracer().emit(Obj().kv("e", "Reset").kv("what", "table-read"));
+        g_sinceReset = g_sinceReset; // (each read starts from the empty table)
+      }
+  }
   // (b) seeded histories over the whole public interface (calls that raise included); write -> read from
   //     whatever table the history has reached
   for (long i = 0; i < nrand; ++i)
@@ -1131,6 +1154,27 @@ static std::unique_ptr<bpp::DiscreteDistributionInterface> simpleFamily(Rng& rng
   }
 }
 
+// k positive weights that sum to 1, multiples of 0.025 (exact in the 6 decimals of the description language)
+static std::vector<double> mixtureWeights(Rng& rng, size_t k)
+{
+  std::vector<long> parts(k, 1);
+  for (long left = 40 - static_cast<long>(k); left > 0; --left) parts[rng.below(k)]++;
+  std::vector<double> p;
+  for (long x : parts) p.push_back(static_cast<double>(x) / 40.0);
+  return p;
+}
+
+// weights of the components of a mixture (possibly inside an Invariant), empty otherwise
+static std::vector<double> componentWeights(const bpp::DiscreteDistributionInterface& d)
+{
+  std::vector<double> w;
+  const bpp::DiscreteDistributionInterface* x = &d;
+  if (auto* inv = dynamic_cast<const bpp::InvariantMixedDiscreteDistribution*>(x)) x = &inv->variableSubDistribution();
+  if (auto* mix = dynamic_cast<const bpp::MixtureOfDiscreteDistributions*>(x))
+    for (size_t i = 0; i < mix->getNumberOfDistributions(); ++i) w.push_back(mix->getNProbability(i));
+  return w;
+}
+
 static void distCase(DistCase& c)
 {
   using namespace bpp;
@@ -1149,6 +1193,8 @@ static void distCase(DistCase& c)
     cats.add(fx(d.getCategory(i)));
     probs.add(fx(d.getProbability(i)));
   }
+  Arr w, w2;
+  for (double x : componentWeights(d)) w.add(fx(x));
   Res r = call([&]() {
     std::ostringstream* os = new std::ostringstream();
     StlOutputStream out((std::unique_ptr<std::ostream>(os)));
@@ -1161,6 +1207,7 @@ static void distCase(DistCase& c)
     auto back = rd.readDiscreteDistribution(text, true);
     fam2 = back->getName();
     n2 = back->getNumberOfCategories();
+    for (double x : componentWeights(*back)) w2.add(fx(x));
     for (size_t i = 0; i < n2; ++i)
     {
       cats2.add(fx(back->getCategory(i)));
@@ -1170,7 +1217,7 @@ static void distCase(DistCase& c)
   Arr inner;
   for (const auto& kv : c.inner) inner.add(Arr().add(asc(kv.first)).add(asc(kv.second)));
   emit(ev("DistRT", r).kv("famname", d.getName()).kv("fam", asc(d.getName())).kv("n", n).kv("ndigits", asc(std::to_string(n))).kv("inner", inner)
-           .kv("text", asc(text)).kv("fam2", asc(fam2)).kv("n2", n2).kv("cats", cats).kv("probs", probs).kv("cats2", cats2).kv("probs2", probs2));
+           .kv("text", asc(text)).kv("fam2", asc(fam2)).kv("n2", n2).kv("cats", cats).kv("probs", probs).kv("cats2", cats2).kv("probs2", probs2).kv("w", w).kv("w2", w2));
 }
 
 static void modeDist(int argc, char** argv, Rng& rng)
@@ -1193,7 +1240,7 @@ static void modeDist(int argc, char** argv, Rng& rng)
   {
     DistCase c;
     size_t n = 1 + rng.below(8);
-    if (rng.coin())
+    if (i >= 10 && rng.coin())
     {
       auto in = simpleFamily(rng, rng.below(6), n);
       c.inner.push_back({"dist", in->getName()});
@@ -1202,16 +1249,23 @@ static void modeDist(int argc, char** argv, Rng& rng)
     }
     else
     {
-      size_t k = 2 + rng.below(2);
+      // mixtures of 2..6 components (every size in turn first), sometimes inside an Invariant
+      size_t k = i < 10 ? 2 + static_cast<size_t>(i / 2) % 5 : 2 + rng.below(5);
       std::vector<std::unique_ptr<DiscreteDistributionInterface>> v;
-      std::vector<double> p;
+      std::vector<double> p = mixtureWeights(rng, k);
       for (size_t j = 0; j < k; ++j)
       {
-        v.push_back(simpleFamily(rng, rng.below(6), 1 + rng.below(4)));
+        v.push_back(simpleFamily(rng, rng.below(7), 1 + rng.below(4)));
         c.inner.push_back({"dist" + std::to_string(j + 1), v.back()->getName()});
-        p.push_back(k == 2 ? 0.5 : (j == 0 ? 0.5 : 0.25));
       }
-      c.d.reset(new MixtureOfDiscreteDistributions(v, p));
+      std::unique_ptr<DiscreteDistributionInterface> mix(new MixtureOfDiscreteDistributions(v, p));
+      if (rng.chance(1, 4))
+      {
+        c.inner.clear();
+        c.inner.push_back({"dist", "Mixture"});
+        c.d.reset(new InvariantMixedDiscreteDistribution(std::move(mix), gridVal(rng, 0.125, 0.75), 0.000001));
+      }
+      else c.d = std::move(mix);
     }
     distCase(c);
   }
